@@ -31,6 +31,18 @@ func init() {
 					items = append(items, Item{ID: fmt.Sprintf("%s/H=%d", mc.ID(), H), Run: func(c *Ctx) { c06(c, mc, H) }})
 				}
 			}
+			// a buffer that already holds a lot (symbolic amount, up to 1 MiB, of unread bytes): limits, thresholds and
+			// offsets computed from the buffer's length instead of the frame's
+			seenFrame := map[string]bool{}
+			for _, mc := range c.msgCases([]int{0}, false, false) {
+				fi := c.frameInfo(mc.Mod, mc.Typ)
+				if fi == nil || (seenFrame[mc.Mod+"."+mc.Typ] && !c.thorough()) {
+					continue
+				}
+				seenFrame[mc.Mod+"."+mc.Typ] = true
+				mc := mc
+				items = append(items, Item{ID: "bighistory:" + mc.ID(), Run: func(c *Ctx) { c06bigHistory(c, mc) }})
+			}
 			// a failed Encode (body with a text too long for its prefix) must leave nothing behind that a later
 			// Encode of another message picks up (staging buffers, pools, caches filled on the error path)
 			for _, mod := range modules {
@@ -734,6 +746,68 @@ func c06afterFail(c *Ctx, mod, tn string, key, fi int) {
 		}
 		if failed == 0 {
 			c.res.Vacuous = append(c.res.Vacuous, "the over-long body is not refused on any path (C18's subject): nothing to check after a failure")
+		}
+	}
+}
+
+
+// c06bigHistory: Encode into an empty buffer -> A; Encode of the same value into a buffer that already holds L unread
+// bytes (L symbolic, 0..2^20): same outcome, and the bytes appended behind them equal A.
+func c06bigHistory(c *Ctx, mc MsgCase) {
+	h := c.newHarness(mc, "wide", 0)
+	e := c.e()
+	s := h.s
+	m2 := h.g.MaterializePtr(s, h.m)
+	hist := (&Gen{w: c.w, sc: c.sc}).symText(s, "hist", 1<<20)
+	L := hist.S.Len
+	buf2 := s.newObj(&Obj{Kind: kBuffer, B: hist.S, R: CI(0)})
+	steps := func(val func(*Term) uint64) []map[string]any {
+		v := h.g.Concretize(h.m, val)
+		return []map[string]any{
+			step("op", "newbuf", "buf", "b1", "hex", ""),
+			step("op", "newmsg", "msg", "m", "module", mc.Mod, "type", mc.Typ, "value", v),
+			step("op", "encode", "msg", "m", "buf", "b1"),
+			step("op", "fillbuf", "buf", "b2", "n", int(val(L)), "fill", 0),
+			step("op", "newmsg", "msg", "m2", "module", mc.Mod, "type", mc.Typ, "value", v),
+			step("op", "encode", "msg", "m2", "buf", "b2"),
+		}
+	}
+	mk := func(what string) func(val func(*Term) uint64) *Violation {
+		return func(val func(*Term) uint64) *Violation {
+			return &Violation{Detail: what, Model: map[string]any{"bytes_already_in_the_buffer": val(L)},
+				Replay: &ReplayReq{Steps: steps(val), Judge: Judge{Kind: "same_as_step", Step: 5, Step2: 2, ExpectHex: strings.Repeat("00", int(val(L)))}}}
+		}
+	}
+	e.pushCall(s, h.enc, []Value{h.mPtr, &Ptr{Obj: h.bufID}}, nil)
+	for _, f1 := range e.Run(s) {
+		if c.PathProblem(f1, "Encode#1", nil) || !encOK(h, f1) {
+			continue
+		}
+		A := unread(f1.heap[h.bufID])
+		f1.frames = nil
+		e.pushCall(f1, h.enc, []Value{m2, &Ptr{Obj: buf2}}, nil)
+		for _, f2 := range e.Run(f1) {
+			if c.PathProblem(f2, "Encode into a buffer holding earlier bytes", func(val func(*Term) uint64, msg string) *Violation {
+				return &Violation{Obligation: "bighistory:no-panic", Detail: "Encode panics when the buffer already holds bytes: " + msg, Model: map[string]any{"bytes_already_in_the_buffer": val(L)},
+					Replay: &ReplayReq{Steps: steps(val), Judge: Judge{Kind: "panic"}}}
+			}) {
+				continue
+			}
+			if !encOK(h, f2) {
+				c.Prove(f2, "bighistory:same-outcome", False, mk("Encode succeeds into an empty buffer and fails into one that already holds bytes"))
+				continue
+			}
+			all := unread(f2.heap[buf2])
+			app := SliceBytes(all, L, all.Len)
+			if c.Prove(f2, "bighistory:length", Eq(app.Len, A.Len), mk("the number of bytes appended depends on what the buffer already holds")) {
+				end := A.Len
+				if fi := c.frameInfo(mc.Mod, mc.Typ); fi != nil && fi.Alg == "CRC32" {
+					// (the CRC-32 trailer is an uninterpreted value per rendering: C05 establishes what it covers)
+					end = Sub(A.Len, CI(int64(fi.SumSize)))
+				}
+				c.Prove(f2, "bighistory:bytes", regionGoal(app, A, CI(0), end, 300), mk("the bytes appended depend on what the buffer already holds"))
+			}
+			c.Witness(f2, "big history", func(val func(*Term) uint64) any { return map[string]any{"bytes_already_in_the_buffer": val(L)} })
 		}
 	}
 }
